@@ -1755,7 +1755,22 @@ class SymExec:
                 # commutative: canonical argument order
                 both = sorted([self._p(b)] + args, key=repr)
                 return opaque(name, both)
+            if name == "clamp" and len(args) == 2:
+                self.log("clamp", node=e, v=self._p(b), lo=args[0], hi=args[1])
             return opaque(name, [self._p(b)] + args)
+        if name == "unwrap_or_else" and len(e["args"]) == 1 and e["args"][0].get("k") == "Closure" and not (e["args"][0].get("params") or []) \
+                and "Option" in (e["recv"].get("ty") or ""):
+            # Option::unwrap_or_else(|| default): same value as unwrap_or(default) (the closure is pure in this code base)
+            ov = self._p(self.eval(recv))
+            snap = (dict(self.st) if self.st is not None else None, len(self.trace))
+            try:
+                dv = self.apply_closure(e["args"][0], [])
+                if isinstance(dv, Poly):
+                    return opaque("call:std::option::Option::<T>::unwrap_or", [ov, dv], tag=e.get("sp"))
+            except Exception:
+                pass
+            self.st = snap[0]
+            del self.trace[snap[1]:]
         if name in ("map_or", "is_some_and", "map_or_else") and e["args"] and e["args"][-1].get("k") == "Closure" and "Option" in (e["recv"].get("ty") or ""):
             # Option::map_or(default, |v| ..): the closure sees the payload; result = default (None) or the closure value (Some)
             cl = e["args"][-1]
